@@ -73,6 +73,13 @@ def from_all_sources(data_text, data_bytes=None):
                   's3': lambda: MosFile.from_s3(bucket_name='b', mos_file_key='k/doc.mos.xml')}
         if data_bytes is None:
             makers['str'] = lambda: MosFile.from_string(data_text)
+        # the typed constructors (SomeClass.from_...) skip classification: same class and document from every source
+        from mosromgr import mostypes as _mt
+        for tname in ('StoryAppend', 'RunningOrder', 'RunningOrderEnd', 'ElementAction', 'EAStoryMove'):
+            tcls = getattr(_mt, tname)
+            makers['typed-' + tname + '/file'] = lambda tcls=tcls: tcls.from_file(path)
+            makers['typed-' + tname + '/bytes'] = lambda tcls=tcls: tcls.from_string(raw)
+            makers['typed-' + tname + '/s3'] = lambda tcls=tcls: tcls.from_s3(bucket_name='b', mos_file_key='k/doc.mos.xml')
         for name, mk in makers.items():
             try:
                 with warnings.catch_warnings():
@@ -85,6 +92,18 @@ def from_all_sources(data_text, data_bytes=None):
     finally:
         shutil.rmtree(tmp, ignore_errors=True)
     return res
+
+
+def sources_agree(res):
+    """The untyped constructors agree with one another, and so do the three sources of each typed constructor."""
+    groups = {}
+    for k, v in res.items():
+        groups.setdefault(k.split('/')[0] if k.startswith('typed-') else 'untyped', []).append(v)
+    return all(all(v == vs[0] for v in vs) for vs in groups.values()) and not any(v.get('faithful') is False for v in groups['untyped'])
+
+
+def untyped(res):
+    return {k: v for k, v in res.items() if not k.startswith('typed-')}
 
 
 def reader_obs(text):
@@ -160,8 +179,8 @@ def run_c18(tier, seed):
         oc.in_domain += 1
         res = from_all_sources(text)
         oc.count('sources')
-        vals = list(res.values())
-        if any(v != vals[0] for v in vals) or any(v.get('faithful') is False for v in vals):
+        vals = list(untyped(res).values())
+        if not sources_agree(res):
             oc.failing.append({'kind': 'sources', 'text': text, 'label': lbl,
                                'spec': 'file, str, bytes and S3 object with the same content give the same class and serialisation',
                                'impl': {k: (v if 'err' in v else v['cls']) for k, v in res.items()}})
@@ -189,7 +208,7 @@ def run_c18(tier, seed):
         expect = from_all_sources(body)['str']
         oc.evaluations += 1
         oc.count('encodings')
-        if any(v != expect for v in res.values()):
+        if any(v != expect for v in untyped(res).values()) or not sources_agree(res):
             oc.failing.append({'kind': 'sources-bytes', 'data_hex': data.hex(), 'body': body, 'label': f'content encoded as {enc}',
                                'spec': 'file, bytes and S3 object agree with the string of the same content',
                                'impl': {k: (v if 'err' in v else v['cls']) for k, v in res.items()}, 'expected': expect['cls']})
@@ -234,6 +253,12 @@ def run_c18(tier, seed):
                              [t_del, t2, t_ins, t_ro, t1]]):
         coll_lists.append((f'tied message IDs #{k}', lst))
     # the same delivery stored twice (two files / keys / list entries with identical content) is two messages
+    # documents of several hundred KiB given as str with a non-UTF-8 declaration (files and S3 objects hold the bytes
+    # in the declared encoding): readers restore what they were given
+    decl = '<?xml version="1.0" encoding="ISO-8859-1"?>'
+    big_story = B.story('BIG', [B.p('caf\u00e9 \u00a3 ' + 'x' * 1000) for _ in range(300)])
+    coll_lists.append(('300 KiB documents declared ISO-8859-1', [decl + t_ro, decl + TJ.to_text(B.story_append([big_story], message_id='5')),
+                                                                 decl + TJ.to_text(B.story_append([B.story('Z\u00fc', [B.p('na\u00efve ' * 40000)])], message_id='6'))]))
     coll_lists.append(('same content twice', [t_ro, t1, t1]))
     coll_lists.append(('same content twice, interleaved', [t1, t_ro, t2, t1]))
     coll_lists.append(('roCreate twice', [t_ro, t_ro, t1]))
@@ -262,15 +287,15 @@ def replay_c18(pid, fl):
     bad = False
     if fl['kind'] == 'sources':
         res = from_all_sources(fl['text'])
-        vals = list(res.values())
-        bad = any(v != vals[0] for v in vals) or any(v.get('faithful') is False for v in vals)
+        vals = list(untyped(res).values())
+        bad = not sources_agree(res)
         rd = reader_obs(fl['text'])
         if 'err' not in vals[0] and '<messageID>' in fl['text'] and '<roID>' in fl['text']:
             bad = bad or any('err' in o or not o['faithful_and_fresh'] or o['mos_type'] != vals[0]['cls'] for o in rd.values())
     elif fl['kind'] == 'sources-bytes':
         res = from_all_sources(None, bytes.fromhex(fl['data_hex']))
         expect = from_all_sources(fl['body'])['str']
-        bad = any(v != expect for v in res.values())
+        bad = any(v != expect for v in untyped(res).values()) or not sources_agree(res)
     elif fl['kind'] == 'listing':
         coll_family.install_fake_s3(coll_family.FakeS3({}, pages=fl['pages']))
         got = s3mod.get_mos_files('bucket', fl['prefix'] or None, suffix=fl['suffix'])
@@ -320,6 +345,9 @@ def file_pool(rng):
         pool[f'm{k:02d}_{cls}.mos.xml'] = ('xml', TJ.to_text(msg))
     pool['compact_roReplace.mos.xml'] = ('xml', TJ.to_text(B.ro_replace([B.story('X', [B.item('X1')])], message_id='90')))
     pool['delete.mos.xml'] = ('xml', TJ.to_text(B.ro_delete(message_id='99')))
+    rr_done = TJ.canon(B.ro_replace([B.story('X', [B.item('X1')])], message_id='98'))
+    rr_done[4].append(E('mosromgrmeta', E('roDelete', E('roID', text='RO1'))))
+    pool['completed_roReplace.mos.xml'] = ('xml', TJ.to_text(rr_done))
     # messages with empty fields, no IDs, no payload: inspect must get through every classifiable one
     pool['mdr_empty_fields.mos.xml'] = ('xml', TJ.to_text(B.metadata_replace([E('roSlug'), E('roChannel'), E('roEdStart', text=' ')], message_id='91')))
     pool['append_nothing.mos.xml'] = ('xml', TJ.to_text(B.story_append([], message_id='92')))
@@ -400,6 +428,9 @@ def run_c19(tier, seed):
         lists = [[n] for n in names]
         for _ in range(60 if tier == 'quick' else 600):
             lists.append(rng.sample(names, rng.randrange(2, 7)))
+        for _ in range(15 if tier == 'quick' else 150):
+            lst = rng.sample(names, rng.randrange(2, 5))
+            lists.append(lst + [lst[0]] + lst[-1:])            # the same path listed again: reported again
         for lst in lists:
             for cmd in ('detect', 'inspect'):
                 jobs.append((cmd, lst, {}))
